@@ -586,6 +586,7 @@ func c20Chunks(tier string) []SeqChunk {
 						a, _ := dec.Decor(decor.Statistics{Total: tot, Current: cur})
 						mcrt.Advance(el)
 						b, _ := dec.Decor(decor.Statistics{Total: tot, Current: cur})
+						mcrt.Advance(el) // the bar completes later than its last running frame
 						c1, _ := dec.Decor(decor.Statistics{Total: tot, Current: tot, Completed: true})
 						mcrt.Advance(time.Hour)
 						c2, _ := dec.Decor(decor.Statistics{Total: tot, Current: tot, Completed: true})
@@ -601,6 +602,18 @@ func c20Chunks(tier string) []SeqChunk {
 							got, err := time.ParseDuration(a)
 							if err != nil || got != el.Truncate(time.Second) {
 								return "", true, "elapsed-value", fmt.Sprintf("elapsed %v printed as %q", el, a)
+							}
+							// the frame that shows the bar completed carries the time it took, not the last running frame's
+							if got, err := time.ParseDuration(c1); err != nil || got != (3*el).Truncate(time.Second) {
+								return "", true, "elapsed-at-completion", fmt.Sprintf("completed after %v (last running frame at %v): elapsed printed as %q", 3*el, 2*el, c1)
+							}
+						}
+						if kind == "avgspeed" && el >= time.Millisecond {
+							want := float64(tot) / (3 * el).Seconds()
+							if want < float64(1<<62) {
+								if k, d := checkSize(c1, int64(math.Round(want)), true, 'f', 1); k != "" {
+									return "", true, "avgspeed-at-completion", fmt.Sprintf("%d bytes completed after %v: average speed printed %q (%s)", tot, 3*el, c1, d)
+								}
 							}
 						}
 						if kind == "avgeta" && cur > 0 && el >= time.Millisecond {
